@@ -21,7 +21,8 @@ def run(tier, seed):
     gl = sorted(ck.zero_globals)
     ck.notes.append('globals of other packages read by the API (zero-initialised in the model, frozen): %s' % gl)
     if findings:
-        path = ck.save_replay({'property': 'C16', 'cases': [{'kind': 'race'}], 'symbolic_findings': [{'call': f[0], 'what': f[1]} for f in findings[:10]]})
+        # a store into a shared argument is a race as soon as two goroutines share it: the model-driven single calls come first
+        path = ck.save_replay({'property': 'C16', 'cases': ck.extra.get('_mem_cases', [])[:24] + [{'kind': 'race'}], 'symbolic_findings': [{'call': f[0], 'what': f[1]} for f in findings[:10]]})
         ok, out = core.go_test(path, race=True, timeout=900)
         if not ok and ('DATA RACE' in out or 'MISMATCH' in out):
             key = 'write:' + (findings[0][2][0]['at'] if findings[0][2] else findings[0][0])
